@@ -257,7 +257,12 @@ func runC05(c *Ctx) {
 		})
 		c.Check(len(roots) == 2, "C05-R5", "Report.isEqual compares Problem.Severity of both reports", eq.Decl.Pos(), "severity is part of report identity",
 			"Report.isEqual no longer compares the severities: Summary.Report can drop a higher-severity report as a duplicate before counting")
-		if rep := c.MustFunc("C05-R5", "internal/reporter.Summary.hasReport"); rep != nil {
+		rep := c.P.Func("internal/reporter.Summary.hasReport")
+		if rep == nil {
+			// the existence test written inside Summary.Report itself
+			rep = c.MustFunc("C05-R5", "internal/reporter.Summary.Report")
+		}
+		if rep != nil {
 			uses := false
 			ast.Inspect(rep.Decl.Body, func(n ast.Node) bool {
 				if call, ok := n.(*ast.CallExpr); ok && isCallTo(rep.Pkg.TypesInfo, call, "internal/reporter.Report.isEqual") {
